@@ -288,7 +288,7 @@ func (in *Interp) conv(tdst, tsrc types.Type, x Value) Value {
 			s := x.(Slice)
 			ek := us.Elem().Underlying().(*types.Basic).Kind()
 			if ek == types.Byte {
-				return mkStr(bytesOfSlice(s))
+				return sliceAsStr(s)
 			}
 			// []rune -> string
 			var out []*Term
@@ -316,7 +316,7 @@ func (in *Interp) conv(tdst, tsrc types.Type, x Value) Value {
 				ek := ud.Elem().Underlying().(*types.Basic).Kind()
 				if ek == types.Byte {
 					if o, ok := x.(*SymStr); ok && o.opq != nil {
-						unsup("[]byte(opaque numeric string)")
+						return Slice{opq: o, len: -1, cap: -1}
 					}
 					return sliceOfBytes(append([]*Term(nil), strBytes(x)...))
 				}
